@@ -211,35 +211,59 @@ static void judge_report(Ctx& ctx, const Case& c, bool from_replay) {
 }
 
 // ---------------------------------------------------------------- success part
+// route: how the paths reach the clipper. 0 direct; 1 everything through one ReuseableDataContainer64; 2 subjects through a
+// container, clip added directly afterwards; 3 clip directly, then the container last; 4 container, Clear(), then direct;
+// 5 direct, and the call is made twice on the same object (the second call is the one judged as well)
+template <class CL, class ADD>
+static void load_route(CL& cl, ReuseableDataContainer64& rd, int route, const Paths64& S, const Paths64& O, const Paths64& C, ADD add_direct) {
+  // (rd belongs to the caller: the clipper refers to the container's vertices, so it has to outlive Execute)
+  switch (route) {
+    case 1: rd.AddPaths(S, PathType::Subject, false); rd.AddPaths(O, PathType::Subject, true); rd.AddPaths(C, PathType::Clip, false); cl.AddReuseableData(rd); break;
+    case 2: rd.AddPaths(S, PathType::Subject, false); rd.AddPaths(O, PathType::Subject, true); cl.AddReuseableData(rd); add_direct(false, false, true); break;
+    case 3: add_direct(false, false, true); rd.AddPaths(S, PathType::Subject, false); rd.AddPaths(O, PathType::Subject, true); cl.AddReuseableData(rd); break;
+    case 4: rd.AddPaths(C, PathType::Subject, false); rd.AddPaths(S, PathType::Clip, false); cl.AddReuseableData(rd); cl.Clear(); add_direct(true, true, true); break;
+    default: add_direct(true, true, true); break;
+  }
+}
 static void judge_success(Ctx& ctx, const Case& c, bool from_replay) {
   ctx.begin(c);
   const Paths64& S = c.P("S"); const Paths64& C = c.P("C"); const Paths64& O = c.P("O");
-  int ct = (int)c.geti("ct"), fr = (int)c.geti("fr"), form = (int)c.geti("form");
+  int ct = (int)c.geti("ct"), fr = (int)c.geti("fr"), form = (int)c.geti("form"), route = (int)c.geti("route");
   bool pc = c.geti("pc") != 0, rev = c.geti("rev") != 0;
-  auto bad = [&](const std::string& claim, const std::string& tag, const std::string& d) { ctx.violation(claim, { tag, "ct" + std::to_string(ct) }, c, d); };
+  if (form > 3) route = 0;
+  auto bad = [&](const std::string& claim, const std::string& tag, const std::string& d) { ctx.violation(claim, { tag, "ct" + std::to_string(ct), "route" + std::to_string(route) }, c, d); };
+  ctx.count("route_" + std::to_string(route));
   const bool noinput = S.empty() && C.empty() && O.empty();
   if (noinput) ctx.count("cases_without_any_input_path");
   ctx.evaluated(); ctx.count("form_" + std::to_string(form)); ctx.count("ct_" + std::to_string(ct));
   Outcome o = attempt([&](Outcome&) {
     switch (form) {
-      case 0: { Clipper64 cl; cl.PreserveCollinear(pc); cl.ReverseSolution(rev); cl.AddSubject(S); cl.AddOpenSubject(O); cl.AddClip(C);
+      case 0: { ReuseableDataContainer64 rd; Clipper64 cl; cl.PreserveCollinear(pc); cl.ReverseSolution(rev);
+        load_route(cl, rd, route, S, O, C, [&](bool s, bool o, bool k) { if (s) cl.AddSubject(S); if (o) cl.AddOpenSubject(O); if (k) cl.AddClip(C); });
         // the output containers are not fresh: whatever they held must not survive the call
         Paths64 sol{ Path64{ Point64(1, 1), Point64(9, 1), Point64(9, 9) } }, solo{ Path64{ Point64(7, 7), Point64(8, 8) } }; bool ok = cl.Execute((ClipType)ct, (FillRule)fr, sol, solo);
+        if (route == 5 && ok) ok = cl.Execute((ClipType)ct, (FillRule)fr, sol, solo);
         if (!ok) bad("C11.execute_false", "Clipper64_paths", "Execute returned false");
         else if ((ct == 0 || noinput) && (!sol.empty() || !solo.empty())) bad("C11.noclip_nonempty", "Clipper64_paths", ct == 0 ? "NoClip produced a solution" : "no input paths, yet the solution is not empty (stale container content)");
         break; }
-      case 1: { Clipper64 cl; cl.PreserveCollinear(pc); cl.ReverseSolution(rev); cl.AddSubject(S); cl.AddOpenSubject(O); cl.AddClip(C);
+      case 1: { ReuseableDataContainer64 rd; Clipper64 cl; cl.PreserveCollinear(pc); cl.ReverseSolution(rev);
+        load_route(cl, rd, route, S, O, C, [&](bool s, bool o, bool k) { if (s) cl.AddSubject(S); if (o) cl.AddOpenSubject(O); if (k) cl.AddClip(C); });
         PolyTree64 t; t.AddChild(Path64{ Point64(1, 1), Point64(9, 1), Point64(9, 9) }); Paths64 solo{ Path64{ Point64(7, 7), Point64(8, 8) } };
         bool ok = cl.Execute((ClipType)ct, (FillRule)fr, t, solo);
+        if (route == 5 && ok) ok = cl.Execute((ClipType)ct, (FillRule)fr, t, solo);
         if (!ok) bad("C11.execute_false", "Clipper64_tree", "Execute returned false");
         else if ((ct == 0 || noinput) && (t.Count() || !solo.empty())) bad("C11.noclip_nonempty", "Clipper64_tree", ct == 0 ? "NoClip produced a solution" : "no input paths, yet the solution is not empty (stale container content)");
         break; }
       case 2: case 3: { double div = c.getd("div", 1.0); int prec = (int)c.geti("prec");
         auto td = [&](const Paths64& pp) { PathsD r; for (auto& p : pp) { PathD q; for (auto& pt : p) q.emplace_back((double)pt.x / div, (double)pt.y / div); r.push_back(q); } return r; };
-        ClipperD cl(prec); cl.PreserveCollinear(pc); cl.ReverseSolution(rev); cl.AddSubject(td(S)); cl.AddOpenSubject(td(O)); cl.AddClip(td(C));
+        ReuseableDataContainer64 rd; ClipperD cl(prec); cl.PreserveCollinear(pc); cl.ReverseSolution(rev);
+        // (a container holds integer coordinates: for ClipperD they are the already scaled ones)
+        load_route(cl, rd, route, S, O, C, [&](bool s, bool o, bool k) { if (s) cl.AddSubject(td(S)); if (o) cl.AddOpenSubject(td(O)); if (k) cl.AddClip(td(C)); });
         if (form == 2) { PathsD sol{ PathD{ PointD(1.0, 1.0), PointD(9.0, 1.0), PointD(9.0, 9.0) } }, solo{ PathD{ PointD(7.0, 7.0), PointD(8.0, 8.0) } }; bool ok = cl.Execute((ClipType)ct, (FillRule)fr, sol, solo);
+          if (route == 5 && ok) ok = cl.Execute((ClipType)ct, (FillRule)fr, sol, solo);
           if (!ok) bad("C11.execute_false", "ClipperD_paths", "Execute returned false"); else if ((ct == 0 || noinput) && (!sol.empty() || !solo.empty())) bad("C11.noclip_nonempty", "ClipperD_paths", "NoClip or no input, yet the solution is not empty"); }
         else { PolyTreeD t; t.AddChild(PathD{ PointD(1.0, 1.0), PointD(9.0, 1.0), PointD(9.0, 9.0) }); PathsD solo{ PathD{ PointD(7.0, 7.0), PointD(8.0, 8.0) } }; bool ok = cl.Execute((ClipType)ct, (FillRule)fr, t, solo);
+          if (route == 5 && ok) ok = cl.Execute((ClipType)ct, (FillRule)fr, t, solo);
           if (!ok) bad("C11.execute_false", "ClipperD_tree", "Execute returned false"); else if ((ct == 0 || noinput) && (t.Count() || !solo.empty())) bad("C11.noclip_nonempty", "ClipperD_tree", "NoClip or no input, yet the solution is not empty"); }
         if (cl.ErrorCode()) bad("C11.valid_rejected", "ClipperD", "error code " + std::to_string(cl.ErrorCode()) + " on in-range input");
         break; }
@@ -268,6 +292,15 @@ void vf_case(Ctx& ctx, uint64_t i) {
     auto mk = [&]() { Paths64 pp = gen::zoo_paths(r, R, 4); if (r.chance(0.5)) pp.push_back(gen::random_poly(r, 0, 0, R, r.irange(3, 12))); if (r.chance(0.2)) for (auto& p : pp) for (auto& pt : p) { if (r.chance(0.3)) pt.x = r.coin() ? R : -R; if (r.chance(0.3)) pt.y = r.coin() ? R : -R; } return pp; };
     c.p64["S"] = mk(); c.p64["C"] = mk(); c.p64["O"] = r.chance(0.4) ? gen::zoo_paths(r, R, 3) : Paths64();
     if (r.chance(0.03)) { c.p64["S"].clear(); c.p64["C"].clear(); c.p64["O"].clear(); }
+    else if (r.chance(0.05)) {
+      // nothing but degenerate paths: no path has a local minimum (points, two-point rings, flat rings, empty paths)
+      auto deg = [&]() { Paths64 pp; int n = r.irange(0, 3); for (int k = 0; k < n; ++k) { int64_t x = r.range(-R, R), y = r.range(-R, R); switch (r.irange(0, 3)) {
+        case 0: pp.push_back(Path64{ Point64(x, y) }); break; case 1: pp.push_back(Path64{ Point64(x, y), Point64(r.range(-R, R), y) }); break;
+        case 2: pp.push_back(Path64{ Point64(x, y), Point64(r.range(-R, R), y), Point64(r.range(-R, R), y), Point64(x, y) }); break; default: pp.push_back(Path64()); break; } } return pp; };
+      c.p64["S"] = deg(); c.p64["C"] = deg(); c.p64["O"] = r.coin() ? Paths64() : Paths64{ Path64{ Point64(r.range(-R, R), r.range(-R, R)) } };
+      ctx.count("cases_with_degenerate_paths_only");
+    }
+    c.seti("route", r.chance(0.45) ? r.irange(1, 5) : 0);
     c.seti("ct", r.irange(0, 4)); c.seti("fr", r.irange(0, 3)); c.seti("pc", r.coin()); c.seti("rev", r.coin());
     int prec = r.irange(-8, 8); c.seti("prec", prec); c.setd("div", prec > 0 ? std::pow(10.0, prec) : 1.0);
     judge_success(ctx, c, false);
